@@ -2,7 +2,7 @@ CONSTANTS
  Elems = {1, 2, 3}
  MaxInit = 3
  MaxAdds = 2
- Paths = {"new", "cbor", "cbor_untagged", "json", "cbor_decoded_adds"}
+ Paths = {"new", "cbor", "cbor_untagged", "json", "cbor_decoded_adds", "builder"}
 INIT MCInit
 NEXT MCNext
 INVARIANT NoDuplicates
